@@ -90,8 +90,37 @@ def b_forms(ch):
     return st
 
 
+def b_two(ch):
+    """two material cards used by two cells, at the same or at different densities"""
+    st = St('c10 two materials')
+    e1 = [(1, 1, '2'), (8, 16, '1')]
+    which = ch.choose('second', ['fe', 'same-nuclides', 'single'])
+    e2 = {'fe': [(26, 56, '0.9'), (26, 54, '0.1')], 'same-nuclides': [(1, 1, '1'), (8, 16, '3')],
+          'single': [(92, 235, '1.')]}[which]
+    neg = ch.choose('mass-fractions-2', [False, True])
+    if neg:
+        e2 = [(z, a, '-' + f) for z, a, f in e2]
+    rho1 = ch.choose('rho1', ['-2.5', '0.05', '-7.8'])
+    rho2 = ch.choose('rho2', ['same', '-7.8', '0.05', '-2.50'])
+    rho2 = rho1 if rho2 == 'same' else rho2
+    order = ch.choose('card-order', ['m1-first', 'm2-first'])
+    third = ch.choose('third-cell', [False, True])
+    st.cells = ['1 1 %s -1 imp:n=1' % rho1, '3 2 %s 1 -2 imp:n=1' % rho2, '2 0 2 imp:n=1']
+    if third:
+        st.cells.insert(2, '4 1 %s 2 -3 imp:n=1' % rho2)
+        st.cells[-1] = '2 0 3 imp:n=1'
+    st.surfs = ['1 so 5', '2 so 8', '3 so 11']
+    c1 = 'm1 ' + ' '.join('%d%03d %s' % e for e in e1)
+    c2 = 'm2 ' + ' '.join('%d%03d %s' % e for e in e2)
+    st.data = [c1, c2] if order == 'm1-first' else [c2, c1]
+    st.multi = [(1, e1, rho1), (3, e2, rho2)] + ([(4, e1, rho2)] if third else [])
+    st.entries, st.rho = e1, rho1
+    return st
+
+
 def scenarios(tier):
     return [Scn('zaid', b_zaid, None, None, 'all Z x 4 mass numbers'),
+            Scn('two-materials', b_two, None, None, 'two cards, coinciding or different cell densities'),
             Scn('forms', b_forms, 5 if tier == 'quick' else 7, 7, 'suffixes, keywords, counts, spellings, signs, densities')]
 
 
@@ -104,38 +133,22 @@ def fval(s):
     return float(s)
 
 
-def check_state(scn, st):
-    r = env.run(st.deck_text, st.options)
-    signs = set(f.startswith('-') for _, _, f in st.entries)
-    mixed = len(signs) > 1
-    if mixed:
-        if r.ok:
-            return verdict(False, st, cls={'kind': 'mixed-signs-accepted'},
-                           msg='a material card mixing atom and mass fractions was converted\n' + st.data[0],
-                           out=sha(r.body))
-        return verdict(True, st, out='err:' + r.exc_type, stats={'rejected_mixed': 1})
-    if not r.ok:
-        return verdict(False, st, cls={'kind': 'exception', 'exc': r.exc_type},
-                       msg='conversion failed: %s\n%s' % (r.brief(), st.deck_text), out='err:' + r.exc_type)
-    t4 = t4read.parse(r.t4)
-    cls, msg = oracle.structural_cls(t4)
-    if cls:
-        return verdict(False, st, cls=cls, msg=msg + '\n' + r.body[-800:], out=sha(r.body))
+def check_one(t4, cell, entries, rho_s):
+    signs = set(f.startswith('-') for _, _, f in entries)
     name = None
     for nm, cnt, ids in t4.geomcomp:
-        if 1 in ids:
+        if cell in ids:
             name = nm
     comp = next((c for c in t4.compos if c['name'] == name), None)
     if comp is None:
-        return verdict(False, st, cls={'kind': 'no-composition'}, msg='no composition for cell 1\n' + r.body[-800:],
-                       out=sha(r.body))
+        return ['no composition %s for cell %d' % (name, cell)]
     bad = []
-    want_names = ['%s%s' % (SYMBOLS[z - 1], ('-NAT' if a == 0 else str(a))) for z, a, _ in st.entries]
+    want_names = ['%s%s' % (SYMBOLS[z - 1], ('-NAT' if a == 0 else str(a))) for z, a, _ in entries]
     got_names = [x[0] for x in comp['items']]
     if got_names != want_names:
         bad.append('nuclides %s, expected %s' % (got_names, want_names))
-    rho = fval(st.rho)
-    fr = [abs(fval(f)) for _, _, f in st.entries]
+    rho = fval(rho_s)
+    fr = [abs(fval(f)) for _, _, f in entries]
     got = [x[1] for x in comp['items']]
     positive = not any(signs)
     if rho < 0:
@@ -159,13 +172,42 @@ def check_state(scn, st):
             if abs(sum(got) - rho) > 1e-12 * rho:
                 bad.append('concentrations sum to %r, cell density is %r' % (sum(got), rho))
         else:
-            # mass fractions with an atom density: unsupported by the converter (it warns and writes
-            # an empty composition); outside the statement of the property
-            return verdict(True, st, out=sha(r.body), nontrivial=False, stats={'mass_fracs_atom_density': 1})
-    stats = {'elements': {st.entries[0][0]}}
+            return None      # mass fractions with an atom density: outside the statement (converter warns)
+    return bad
+
+
+def check_state(scn, st):
+    r = env.run(st.deck_text, st.options)
+    multi = getattr(st, 'multi', None) or [(1, st.entries, st.rho)]
+    mixed = any(len(set(f.startswith('-') for _, _, f in e)) > 1 for _, e, _ in multi)
+    if mixed:
+        if r.ok:
+            return verdict(False, st, cls={'kind': 'mixed-signs-accepted'},
+                           msg='a material card mixing atom and mass fractions was converted\n' + st.data[0],
+                           out=sha(r.body))
+        return verdict(True, st, out='err:' + r.exc_type, stats={'rejected_mixed': 1})
+    if not r.ok:
+        return verdict(False, st, cls={'kind': 'exception', 'exc': r.exc_type},
+                       msg='conversion failed: %s\n%s' % (r.brief(), st.deck_text), out='err:' + r.exc_type)
+    t4 = t4read.parse(r.t4)
+    cls, msg = oracle.structural_cls(t4)
+    if cls:
+        return verdict(False, st, cls=cls, msg=msg + '\n' + st.deck_text + r.body[-800:], out=sha(r.body))
+    bad = []
+    skipped = 0
+    for cell, entries, rho in multi:
+        b = check_one(t4, cell, entries, rho)
+        if b is None:
+            skipped += 1
+        else:
+            bad += ['cell %d: %s' % (cell, x) for x in b]
+    stats = {'elements': {multi[0][1][0][0]}}
+    if skipped == len(multi):
+        return verdict(True, st, out=sha(r.body), nontrivial=False, stats={'mass_fracs_atom_density': 1})
     if bad:
-        return verdict(False, st, cls={'kind': 'composition', 'what': bad[0].split()[0]},
-                       msg='%s\n%s\n%s' % (st.data[0], '\n'.join(bad), r.body[r.body.find('COMPOSITION'):][:600]),
+        return verdict(False, st, cls={'kind': 'composition', 'what': bad[0].split()[2]},
+                       msg='%s\n%s\n%s' % ('\n'.join(st.data), '\n'.join(bad),
+                                           r.body[r.body.find('COMPOSITION'):][:900]),
                        out=sha(r.body), stats=stats)
     return verdict(True, st, out=sha(r.body), stats=stats)
 
